@@ -38,7 +38,13 @@ def build(tier, seed):
     for i in range(60 if thorough else 6):
         cases.append({"id": f"long-{i}", "kind": "long", "i": i})
 
+    # "every TLS connection in the capture": captures of two or three connections that share their client endpoint, their server endpoint, or both hosts in either role
+    for i in range(400 if thorough else 18):
+        cases.append({"id": f"twin-{i}", "kind": "twin", "i": i})
+
     def evalfn(case):
+        if case["kind"] == "twin":
+            return eval_twin(case, seed)
         return eval_case(case, seed, thorough)
 
     def extra(results):
@@ -134,6 +140,27 @@ def make_case(case, seed, thorough):
     cls = [suites.VNAME[v], f"{code:04X}", shape + ("+bighello" if spec.ch_pad >= 1300 else ""), "g" + "".join(map(str, spec.group_server_flight)),
            cl["pattern"], segkind, "v6" if ep.v6 else "v4"]
     return dict(rng=rng, spec=spec, conn=conn, ep=ep, items=items, flows=[fl], extra=extra, mapargs=mapargs, cls=cls, segkind=segkind)
+
+
+def eval_twin(case, seed):
+    from vlib import gen
+    rng = random.Random(engine.subseed("C01", seed, case["id"]))
+    pattern = ["same-client-port", "same-client-host", "same-server", "mirrored", "same-ports-other-hosts", "small-pool"][case["i"] % 6]
+    n = rng.choice([2, 2, 3])
+    eps = gen.distinct_eps(rng, n, pattern)
+    flows = [gen.random_tls_flow(rng, k, ep=eps[k], nmax=6, min_records=2, duplex=rng.random() < 0.3, tfo=False) for k in range(n)]
+    items = scene.stamp(scene.merge(flows, rng, rng.choice(["random", "concat", "bursty"])), rng)
+    res, files, argv = e2e.run_capture(scene.capture(items), scene.keylog_text(flows, rng), [])
+    out = {"cls": ["twin", pattern, n] + sorted(f.label for f in flows), "nontrivial": True, "tags": ["shape:twin-" + pattern],
+           "sample": {"case": case["id"], "pattern": pattern, "flows": [f.label + " " + f.ep.describe() for f in flows]}}
+    fail = e2e.run_failed(res)
+    if fail:
+        return dict(out, v="inconclusive" if fail.startswith("INCONCLUSIVE") else "violated", msg=fail, files=dict(files, argv="\n".join(argv)))
+    an = outparse.Analysis(res.out)
+    msgs = [f"{f.label} {f.ep.describe()}: {m}" for f in flows for m in gen.check_flow_exact(an, f)]
+    if msgs:
+        return dict(out, v="violated", msg=f"{n} connections, {pattern}: " + "; ".join(msgs[:2]), files=dict(files, argv="\n".join(argv), **{"out.pcapng": res.out}))
+    return dict(out, v="held")
 
 
 def eval_case(case, seed, thorough):
